@@ -54,38 +54,38 @@ CHECKS = {
             'identity of the notified object with the stored one.',
             'Trusted: Lean kernel, reading of the statement, correspondence harness.  Float `%` rounding is '
             'not modelled: rotations are multiples of 1/2 degree (exact in binary floating point).  '
-            'Listeners are passive in the theorem.',
+            'C20_notify_stored assumes passive listeners; C20_stored_whatever_listeners_do holds for arbitrary listener reactions.',
             '§5 C20'),
     'C01': ('correspondence',
-            'Lean 4 invariant proof over all operation histories of the World model (index/row transposition, fresh automatic ids); tied to world.py by correspondence observing all six queries after every operation',
+            'Lean 4 invariant proof over all operation histories of the World model, including callbacks that call back into the same world to any nesting depth (index/row transposition, get = subclass relation, get(object), fresh automatic ids); tied to world.py by correspondence observing all queries after every operation',
             'Theorems in lean/DesperProofs/Props/C01.lean about lean/DesperModel/World.lean (mirrors world.py after the fix commits). Every run rebuilds/audits them and runs model and real World on generated histories (int/str/automatic ids, replacement, diamonds), comparing get/get_component/get_components/has_component/entities/entity_exists for 7 ids x all types after EVERY operation, plus an independent oracle written from the property text.',
-            'Trusted: Lean kernel; reading of the statement; correspondence harness (bounded by generators). Lifecycle callbacks and processors are passive in the World model (re-entrant callbacks: dispatcher model); CPython dict/set/__subclasses__ order semantics are modelled (insertion order, creation order), not verified; default id generator only.',
+            'Trusted: Lean kernel; reading of the statement; correspondence harness (bounded by generators). Lifecycle callbacks and processors are scripted in the World model: they log, may raise, may call delete_entity, and may make nested World calls on the same world (Universe.tie); theorems needing passive callbacks carry [U.NoReenter] / [U.Passive] in their statements, the C01 theorems hold for re-entrant callbacks too (ReactInv); plain-event callbacks re-enter only as sole listener (set order of several listeners is canonicalised, not modelled); CPython dict/set/__subclasses__ order semantics are modelled (insertion order, creation order), not verified; default id generator only.',
             '§5 C01'),
     'C02': ('correspondence',
-            'Lean 4 theorems over the World model with passive callbacks (registered-iff-attached invariant, postponed callbacks FIFO); tied to world.py/events.py by correspondence; two known findings (D5a, D23) carried with explicit guards',
+            'Lean 4 theorems over the World model (registered-iff-attached invariant for non-re-entrant callbacks, postponed callbacks FIFO); tied to world.py/events.py by correspondence; two known findings (D5a, D23) carried with explicit guards',
             'Theorems in lean/DesperProofs/Props/C02.lean; correspondence over handler/non-handler components with every subset of on_add/on_remove/probe events, dispatch toggles, clear and reuse; oracle = abstract attachment relation + FIFO of postponed callbacks.',
-            'Trusted: Lean kernel; reading of the statement; correspondence harness (bounded by generators). Lifecycle callbacks and processors are passive in the World model (re-entrant callbacks: dispatcher model); CPython dict/set/__subclasses__ order semantics are modelled (insertion order, creation order), not verified; default id generator only.',
+            'Trusted: Lean kernel; reading of the statement; correspondence harness (bounded by generators). Lifecycle callbacks and processors are scripted in the World model: they log, may raise, may call delete_entity, and may make nested World calls on the same world (Universe.tie); theorems needing passive callbacks carry [U.NoReenter] / [U.Passive] in their statements, the C01 theorems hold for re-entrant callbacks too (ReactInv); plain-event callbacks re-enter only as sole listener (set order of several listeners is canonicalised, not modelled); CPython dict/set/__subclasses__ order semantics are modelled (insertion order, creation order), not verified; default id generator only.',
             '§5 C02'),
     'C05': ('correspondence',
-            'Lean 4 theorems over the World model (two-step deletion, sweep before processors, process total on well-formed histories, no sticky failure); correspondence biased to touching deleted entities before the frame, with scripted raising callbacks',
+            'Lean 4 theorems over the World model (two-step deletion, sweep before processors, process total on well-formed histories, no sticky failure, marks made by callbacks during the sweep survive it); correspondence biased to touching deleted entities before the frame, with scripted raising callbacks',
             'Theorems in lean/DesperProofs/Props/C05.lean; correspondence with deferred deletion interleaved with remove/immediate delete/re-create on the same id, several frames, raising on_remove/processors.',
-            'Trusted: Lean kernel; reading of the statement; correspondence harness (bounded by generators). Lifecycle callbacks and processors are passive in the World model (re-entrant callbacks: dispatcher model); CPython dict/set/__subclasses__ order semantics are modelled (insertion order, creation order), not verified; default id generator only.',
+            'Trusted: Lean kernel; reading of the statement; correspondence harness (bounded by generators). Lifecycle callbacks and processors are scripted in the World model: they log, may raise, may call delete_entity, and may make nested World calls on the same world (Universe.tie); theorems needing passive callbacks carry [U.NoReenter] / [U.Passive] in their statements, the C01 theorems hold for re-entrant callbacks too (ReactInv); plain-event callbacks re-enter only as sole listener (set order of several listeners is canonicalised, not modelled); CPython dict/set/__subclasses__ order semantics are modelled (insertion order, creation order), not verified; default id generator only.',
             '§5 C05'),
     'C06': ('correspondence',
             'Lean 4 proof that the fringe walk visits exactly the reflexive-transitive subclasses (structural recursion on class index), get() lists each once; correspondence on random class DAGs',
             'Theorems in lean/DesperProofs/Props/C06.lean (walk sound and complete w.r.t. the subclass relation, exact type first, get without duplicates); correspondence on random DAGs accepted by C3 with all query types.',
-            'Trusted: Lean kernel; reading of the statement; correspondence harness (bounded by generators). Lifecycle callbacks and processors are passive in the World model (re-entrant callbacks: dispatcher model); CPython dict/set/__subclasses__ order semantics are modelled (insertion order, creation order), not verified; default id generator only.',
+            'Trusted: Lean kernel; reading of the statement; correspondence harness (bounded by generators). Lifecycle callbacks and processors are scripted in the World model: they log, may raise, may call delete_entity, and may make nested World calls on the same world (Universe.tie); theorems needing passive callbacks carry [U.NoReenter] / [U.Passive] in their statements, the C01 theorems hold for re-entrant callbacks too (ReactInv); plain-event callbacks re-enter only as sole listener (set order of several listeners is canonicalised, not modelled); CPython dict/set/__subclasses__ order semantics are modelled (insertion order, creation order), not verified; default id generator only.',
             '§5 C06'),
     'C07': ('correspondence',
             'Lean 4 proofs: bisect_right postcondition, processors list sorted by priority and stable, one per exact type, process calls = sorted list; correspondence on add/remove/process histories with ties, zero and negative priorities',
             'Theorems in lean/DesperProofs/Props/C07.lean; correspondence with class/explicit priorities incl. ties, 0 and negatives, removal by supertype, handler processors.',
-            'Trusted: Lean kernel; reading of the statement; correspondence harness (bounded by generators). Lifecycle callbacks and processors are passive in the World model (re-entrant callbacks: dispatcher model); CPython dict/set/__subclasses__ order semantics are modelled (insertion order, creation order), not verified; default id generator only.',
+            'Trusted: Lean kernel; reading of the statement; correspondence harness (bounded by generators). Lifecycle callbacks and processors are scripted in the World model: they log, may raise, may call delete_entity, and may make nested World calls on the same world (Universe.tie); theorems needing passive callbacks carry [U.NoReenter] / [U.Passive] in their statements, the C01 theorems hold for re-entrant callbacks too (ReactInv); plain-event callbacks re-enter only as sole listener (set order of several listeners is canonicalised, not modelled); CPython dict/set/__subclasses__ order semantics are modelled (insertion order, creation order), not verified; default id generator only.',
             '§5 C07'),
     'C18': ('math-translator',
             'Lean 4 theorems (ring / linear_combination / Mathlib Matrix, Real.sqrt, Complex.arg) about '
             'definitions REGENERATED from desper/math.py on every run by a tracing translator; translator '
-            'validated every run by exact rational execution against the real functions',
-            '55 theorems in lean/DesperProofs/Props/C18.lean with the generated definitions '
+            'validated every run by exact rational execution against the real functions (genuine int / Fraction arguments, float-literal tracking, call sequences with operands edited in place, re-entering number objects) and a purity obligation (no function of math.py keeps state between calls)',
+            '56 theorems in lean/DesperProofs/Props/C18.lean with the generated definitions '
             '(lean/DesperProofs/Generated/MathGen.lean, traced from the real functions on symbolic scalars) on '
             'the left and textbook definitions / Mathlib Matrix on the right: entry-wise arithmetic, dot, cross, '
             'lerp, scale, clamp, distance, swizzling for every letter list, row-by-column product, associativity, '
@@ -96,7 +96,7 @@ CHECKS = {
             'Trusted: Lean kernel; the translator (Sym operator semantics, branch enumerator, _math shim mapping '
             'sqrt/sin/cos/atan2 to Real.sqrt/sin/cos/Complex.arg) - validated every run on exact rationals; the '
             'textbook definitions in the Props file.  Partial: IEEE floating point is not modelled, only tested '
-            '(rel. tol. 1e-9 on magnitudes 1e-3..1e3); x/0 is a call status in the executable version.',
+            '(rel. tol. 1e-9 on magnitudes 1e-3..1e3); x/0 is a call status in the executable version.  Known findings D32, D33: float literals in the default matrices and in orthogonal_projection round exact arguments.',
             '§5 C18'),
     'C15': ('correspondence',
             'Lean 4 theorems over a loader model (regexes as functions on character lists proved for ALL strings, '
@@ -109,7 +109,7 @@ CHECKS = {
             'WorldFromFileHandle, importable scenario modules, dictionary path as well.',
             'Trusted: Lean kernel; reading of the statement; correspondence harness.  json.load, importlib, lru_cache '
             'and Python re are modelled (re validated exhaustively on short strings over the marker alphabet), not '
-            'verified.  Known finding D25 (string-valued ${} result resolved a second time) carried with a guard.',
+            'verified.  Known finding D30 (string-valued ${} result resolved a second time) carried with a guard.',
             '§5 C15'),
     'C13': ('correspondence',
             'Lean 4 theorems over a loop model (frames, handles with caches, held events) by induction over the frame '
@@ -170,7 +170,7 @@ CHECKS = {
             'Theorems in lean/DesperProofs/Props/C08.lean (C08_one_step, C08_frame_runs_in_deque_order, '
             'C08_order_stable, C08_nonpositive_is_next_frame, C08_wake_exact, C08_progress_counts_logged_steps).  '
             'Correspondence: 1-6 scripts, waits from none/0/negative/1/8..4, dt from 0..2, 20-60 frames.',
-            'Trusted: Lean kernel; reading of the statement; correspondence harness (bounded by generators).  Generator objects are scripts (steps of in-body start/kill/state actions followed by yield or return); bodies that raise, call process recursively or yield non-numbers are out of scope; heapq tie order is a validated hint; times are multiples of 1/8 s (exact in binary floating point), float rounding not modelled.', '§5 C08'),
+            'Trusted: Lean kernel; reading of the statement; correspondence harness (bounded by generators).  Generator objects are scripts (steps of in-body start/kill/state actions followed by yield or return); bodies may raise out of process() (modelled after the D31 repair); bodies that call process recursively or yield non-numbers are out of scope; heapq tie order is a validated hint; times are multiples of 1/8 s (exact in binary floating point), float rounding not modelled.', '§5 C08'),
     'C09': ('correspondence',
             'Lean 4 theorems: table coherence invariant over all start/kill/state/process interleavings from outside '
             'and inside bodies, process total, state characterisation, errors leave the state unchanged, kill final, '
@@ -178,7 +178,7 @@ CHECKS = {
             'Theorems in lean/DesperProofs/Props/C09.lean (C09_process_total, C09_tables_coherent, C09_state, '
             'C09_errors, C09_kill_final, C09_promise, C09_released).  Correspondence: random + every history of <= 4 '
             '(quick) / <= 6 (thorough) operations over small script families; weakref/gc check of finished generators.',
-            'Trusted: Lean kernel; reading of the statement; correspondence harness (bounded by generators).  Generator objects are scripts (steps of in-body start/kill/state actions followed by yield or return); bodies that raise, call process recursively or yield non-numbers are out of scope; heapq tie order is a validated hint; times are multiples of 1/8 s (exact in binary floating point), float rounding not modelled.' + '  Collectability of finished generators is runtime behaviour: observed, not proved.', '§5 C09'),
+            'Trusted: Lean kernel; reading of the statement; correspondence harness (bounded by generators).  Generator objects are scripts (steps of in-body start/kill/state actions followed by yield or return); bodies may raise out of process() (modelled after the D31 repair); bodies that call process recursively or yield non-numbers are out of scope; heapq tie order is a validated hint; times are multiples of 1/8 s (exact in binary floating point), float rounding not modelled.' + '  Collectability of finished generators is runtime behaviour: observed, not proved.', '§5 C09'),
     'C19': ('correspondence',
             'Lean 4 theorems (shorthand = World call for the recorded entity; Controller.on_add records the owner; '
             'prototype three-way construction rule; on_update relayed once per listener) + twin-world differential '
